@@ -249,7 +249,7 @@ def gen_scenario(seed, profile=None):
     ws = gen_watchers(rng, nw, p)
     sc = {"seed": seed, "watchers": ws,
           "check_delay": rng.choice(p.get("check_delays", [0.3, 0.5, 1.0])),
-          "warmup_delay": rng.choice([0.0, 0.0, 0.1]),
+          "warmup_delay": rng.choice(p.get("wgs", [0.0, 0.0, 0.1])),
           "stubborn": [w["name"] for w in ws if rng.random() < p["stubborn"]],
           "obeys": [rng.random() < 0.8 for _ in range(7)],
           "instant_death": rng.random() < p.get("instant", 0.0),
